@@ -42,6 +42,10 @@ REAL = {
 }
 
 
+class LoadFault(Exception):
+    """What the harness handle's load() raises when the specification arms a fault."""
+
+
 class Among:
     """Expected value of a `val` outcome: the returned object is the tok-th product of handle h."""
 
@@ -123,7 +127,12 @@ class ResourcesAdapter:
                 self.products = []
 
             def load(self):
-                env_ref.env.loaded.append(self.name)
+                env = env_ref.env
+                env.seen.append((self.name, bool(self.cached)))     # what the handle says about itself mid-load
+                if self.name in env.armed:
+                    env.armed.discard(self.name)
+                    raise LoadFault()
+                env.loaded.append(self.name)
                 v = MAKERS[self.kind]()
                 self.products.append(v)
                 return v
@@ -134,6 +143,8 @@ class ResourcesAdapter:
     def reset(self, init):
         env = self.env = Env()
         env.loaded = []
+        env.seen = []
+        env.armed = set()
         env.order = sorted(fmap(init['maps']))                     # 'm0' < 'm1' < ...: MapOrder
         env.maps = {m: self.RMap() for m in env.order}
         env.handles = {h: self.RHandle(h, KINDS[(KINDS.index(k) + self.kind_shift) % len(KINDS)])
@@ -241,7 +252,10 @@ class ResourcesAdapter:
     def step(self, name, args, pre):
         env = self.env
         env.loaded = []
+        env.seen = []
         maps, handles = env.maps, env.handles
+        if name in ('SetItem', 'PushLayer', 'Clear', 'Snapshot'):
+            env.snaps = {}      # a changed map's older snapshot is no longer looked at; a new snapshot replaces the old
         # resolve the harness's own lookups first: only the real call runs inside `guarded`
         if name == 'SetItem':
             m, key, val = maps[args[0]], self._key(args[1]), (maps[args[2]] if args[2] in maps else handles[args[2]])
@@ -256,6 +270,9 @@ class ResourcesAdapter:
             except Exception:
                 kids = None
         elif name == 'Seal':
+            call = lambda: None
+        elif name == 'ArmFault':
+            env.armed.add(args[0])
             call = lambda: None
         elif name == 'Call':
             call = handles[args[0]]
@@ -292,7 +309,7 @@ class ResourcesAdapter:
         else:
             ret = ('ok',) if v is None else ('?', type(v).__name__)
         del ex
-        obs = {'ret': ret, 'loaded': tuple(sorted(env.loaded))}
+        obs = {'ret': ret, 'loaded': tuple(sorted(env.loaded)), 'seen_in_load': tuple(sorted(env.seen))}
         if name == 'Clear':
             mp = maps[args[0]]
             obs['empty_after_clear'] = (not mp.maps) and (not mp.handles)
@@ -533,11 +550,15 @@ class ResourcesAdapter:
         elif kind == 'default':
             ret = ('default',)
         elif kind == 'exc':
-            ret = ('exc', 'KeyError') if r[1] == 'KeyError' else Raises()
+            ret = ('exc', r[1]) if r[1] in ('KeyError', 'LoadFault') else Raises()
         else:
             raise AssertionError('unknown ret ' + repr(r))
         exp = {k: v for k, v in self._expect_state(post).items() if k[0] != '_'}
         exp['ret'] = ret
+        if not self.probe:
+            # during a load (successful or failing) the handle is not cached yet
+            exp['seen_in_load'] = tuple(sorted([(h, False) for h in post['loadedNow']] +
+                                               [(h, False) for h in pre['armed'] - post['armed']]))
         if not self.wb:
             del exp['wb_layers']
         if name == 'Clear':
@@ -563,5 +584,5 @@ def _seq(v):
 
 
 FACETS_TREE = {'ret', 'den_get', 'den_item', 'den_chain', 'den_call', 'links', 'empty_after_clear', 'detached'}
-FACETS_CACHE = {'ret', 'loaded', 'cached', 'nloads'}
+FACETS_CACHE = {'ret', 'loaded', 'cached', 'nloads', 'seen_in_load'}
 FACETS_STATIC = {'ret', 'smirror', 'loaded'}
